@@ -27,7 +27,11 @@ func CheckBinding(w *World, fn int, a ArgObs) string {
 	}
 	src := o.L
 	src.Dyn = o.Dyn
-	if !RPlus(a.L, src) {
+	ok = RPlus(a.L, src)
+	for _, alt := range o.Alt {
+		ok = ok || RPlus(a.L, alt)
+	}
+	if !ok {
 		from := "input"
 		if !o.Input {
 			from = fmt.Sprintf("output of f%d", o.Func)
